@@ -201,6 +201,8 @@ struct Runner<'a, 'w> {
     reference: Option<&'a [OpRecord]>,
     stats: RunStats,
     sched: Option<Arc<Sched>>,
+    /// what the scheduler is told about the execution in flight (1 + scope depth, 100 = shared root)
+    exec_code: u8,
 }
 
 impl<'a, 'w> Runner<'a, 'w> {
@@ -365,7 +367,7 @@ impl<'a, 'w> Runner<'a, 'w> {
         });
     }
 
-    fn set_in_exec(&self, v: bool) {
+    fn set_in_exec(&self, v: u8) {
         if let Some(s) = &self.sched {
             s.set_in_exec(self.tid, v);
         }
@@ -396,9 +398,9 @@ impl<'a, 'w> Runner<'a, 'w> {
         }
         let steps0 = tls::with(|ts| ts.steps);
         tls::begin_exec(exec_key, fail_at);
-        self.set_in_exec(true);
+        self.set_in_exec(self.exec_code);
         let (outcome, val) = f();
-        self.set_in_exec(false);
+        self.set_in_exec(0);
         let tel = tls::end_exec();
         let steps = tls::with(|ts| ts.steps) - steps0;
         match &outcome {
@@ -560,6 +562,11 @@ impl<'a, 'w> Runner<'a, 'w> {
                         Target::Private => self.stats.exec_on_private += 1,
                         Target::Inner => self.stats.exec_in_scope_depth[depth] += 1,
                     }
+                    self.exec_code = match target {
+                        Target::Root => 100,
+                        Target::Private => 50,
+                        Target::Inner => 1 + depth as u8,
+                    };
                     let (outcome, val) = self.do_recorded(idx, *fault, &mut || execute_keep(program, ctx));
                     if self.phase == Phase::Sequential && !self.sh.stopped() {
                         self.sequential_oracles(idx, *prog % sh.compiled.programs.len(), target, ctx, &outcome);
@@ -752,6 +759,7 @@ fn run_thread<'a, 'w>(
             reference,
             stats: RunStats::default(),
             sched: sched.clone(),
+            exec_code: 1,
         };
         let mut base = root.new_inner_scope();
         let mut pos = 0usize;
